@@ -1577,6 +1577,9 @@ class _SessionTrackingClient:
         token = hdrs.get(SESSION_HEADER) or hdrs.get(SESSION_HEADER.lower())
         if token:
             self._view._token = token
+            # A fresh token means a live session again, even if an earlier
+            # response closed the previous one: exit must release it.
+            self._view._closed = False
         # Capture VGI-Echo-* on every response (cheap; only emitted on session
         # open, so subsequent responses are no-ops). httpx2 headers are
         # case-insensitive but _SyncTestResponse stores lowercase — iterate
